@@ -28,6 +28,86 @@ def shorten(a):
     return a if len(a) < 140 else a[:60] + " … " + a[-70:]
 
 
+
+import re as _re
+import itertools as _it
+_TAG = _re.compile(r"\[\*(<?)#(\d+|\?)\]")
+
+
+def _list_before(a, pos):
+    """the text of the term that ends at a[pos] (the list a bound element is taken from)"""
+    depth = 0
+    i = pos - 1
+    while i >= 0:
+        ch = a[i]
+        if ch in ")]}":
+            depth += 1
+        elif ch in "([{":
+            if depth == 0:
+                break
+            depth -= 1
+        elif depth == 0 and ch in ",;& |" and not (ch == "|" and False):
+            break
+        i -= 1
+    return a[i + 1:pos]
+
+
+def _retag(a, table, order, perm=None):
+    """atom text with the numbers made canonical per list; table: list text -> {old number: new number} (filled on the way)"""
+    out = ""
+    pos = 0
+    for m in _TAG.finditer(a):
+        out += a[pos:m.start()]
+        key = _list_before(out, len(out))
+        if perm is None:
+            mp = table.setdefault(key, {})
+            if m.group(2) not in mp:
+                mp[m.group(2)] = str(len(mp) + 1)
+                if key not in order:
+                    order.append(key)
+            n = mp[m.group(2)]
+        else:
+            n = perm.get(key, {}).get(m.group(2), m.group(2))
+        out += "[*%s#%s]" % (m.group(1), n)
+        pos = m.end()
+    return out + a[pos:]
+
+
+def canonical_tags(code, spec_must, spec_may):
+    ct, co, st, so = {}, [], {}, []
+    # (atoms are visited in a fixed order so that the numbering does not depend on hashing)
+    def canon(fs, table, order):
+        names = sorted(set(a for f in fs.values() for a in B.atoms_of(f)))
+        ren = {a: _retag(a, table, order) for a in names}
+        return {ps: B.rename(f, lambda a: ren.get(a, a)) for ps, f in fs.items()}
+    code = canon(code, ct, co)
+    both = dict(("must|" + k, v) for k, v in spec_must.items())
+    both.update(("may|" + k, v) for k, v in spec_may.items())
+    both = canon(both, st, so)
+    spec_must = {k[5:]: v for k, v in both.items() if k.startswith("must|")}
+    spec_may = {k[4:]: v for k, v in both.items() if k.startswith("may|")}
+    multi = [k for k in co if len(ct[k]) > 1]
+    if not multi or len(multi) > 3 or any(len(ct[k]) > 4 for k in multi):
+        return code, spec_must, spec_may
+    satoms = set()
+    for f in list(spec_must.values()) + list(spec_may.values()):
+        satoms |= set(B.atoms_of(f))
+    best = None
+    nums = {k: sorted(ct[k].values()) for k in multi}
+    for choice in _it.product(*[list(_it.permutations(nums[k])) for k in multi]):
+        perm = {k: dict(zip(nums[k], c)) for k, c in zip(multi, choice)}
+        # (renumbering an outer list's variables changes the text of the inner lists' keys: the inner numbering is per list text and stays valid)
+        ren = {ps: B.rename(f, lambda a: _retag(a, None, None, perm)) for ps, f in code.items()}
+        score = 0
+        for ps in ren:
+            if ps in spec_must:
+                score += int(B.implies(spec_must[ps], ren[ps])[0]) + int(B.implies(ren[ps], spec_may[ps])[0])
+        common = sum(len(set(B.atoms_of(f)) & satoms) for f in ren.values())
+        if best is None or (score, common) > best[0]:
+            best = ((score, common), ren)
+    return best[1], spec_must, spec_may
+
+
 def compare(rule, crate, sm, body, det, label=None, subst=None):
     """-> list of Ob. `subst`: optional {param index: term} substitution applied to the code side (shared helper bodies)."""
     obs = []
@@ -81,34 +161,11 @@ def compare(rule, crate, sm, body, det, label=None, subst=None):
                 pv = single + m.group(3)
                 code[pv] = B.Or(code.get(pv, B.F), fv)
                 sites.setdefault(pv, w)
-    # bound element variables ([*#k]) are compared modulo a renaming: try the bijections between the code's and the spec's numbers
-    import itertools, re as _re
-    tag_re = _re.compile(r"\[\*<?#(\d+|\?)\]")
-
-    def tags_of(fs):
-        out = set()
-        for f in fs:
-            for a in B.atoms_of(f):
-                out |= set(tag_re.findall(a))
-        return sorted(out)
-    ctags = tags_of(code.values())
-    stags = tags_of(list(spec_must.values()) + list(spec_may.values()))
-    best = None
-    if ctags and len(ctags) == len(stags) and len(ctags) <= 5:
-        for perm in itertools.permutations(stags):
-            mp = dict(zip(ctags, perm))
-            ren = {ps: B.rename(f, lambda a: tag_re.sub(lambda m: "[*%s#%s]" % ("<" if "<" in m.group(0) else "", mp.get(m.group(1), m.group(1))), a)) for ps, f in code.items()}
-            score = 0
-            for ps in ren:
-                if ps in spec_must:
-                    score += int(B.implies(spec_must[ps], ren[ps])[0]) + int(B.implies(ren[ps], spec_may[ps])[0])
-            satoms = set()
-            for f in list(spec_must.values()) + list(spec_may.values()):
-                satoms |= set(B.atoms_of(f))
-            common = sum(len(set(B.atoms_of(f)) & satoms) for f in ren.values())
-            if best is None or (score, common) > best[0]:
-                best = ((score, common), ren)
-        code = best[1]
+    # bound element variables ([*#k]): what distinguishes two of them is the list they range over and, for two variables over the same list, their
+    # number. The numbers are therefore made canonical per list (1, 2, .. in order of first occurrence) on both sides - whether two existentials over
+    # different lists were produced by one flag or by two makes no difference - and the remaining freedom (which of two variables over the same
+    # list is #1) is searched
+    code, spec_must, spec_may = canonical_tags(code, spec_must, spec_may)
     for ps in sorted(set(code) | set(spec_must)):
         short = shorten(ps)
         if ps not in spec_must:
